@@ -544,6 +544,8 @@ func main() {
 		if p1.Res != nil && p2.Res != nil {
 			if fmt.Sprint(p1.Res.AllFps) == fmt.Sprint(p2.Res.AllFps) && len(p1.Res.AllFps) > 0 {
 				det = fmt.Sprintf("ok (%d runs x 2 processes, identical fingerprints)", len(p1.Res.AllFps))
+			} else if len(p1.Res.AllFps) != len(p2.Res.AllFps) {
+				det = fmt.Sprintf("inconclusive (one recheck worker ended after %d runs, the other after %d; see exploration)", len(p1.Res.AllFps), len(p2.Res.AllFps))
 			} else {
 				det = fmt.Sprintf("MISMATCH %v vs %v", p1.Res.AllFps, p2.Res.AllFps)
 				fmt.Fprintln(os.Stderr, "sup: WARNING determinism recheck:", det)
